@@ -76,14 +76,18 @@ CLAIMS["C18"] = dict(text="bounded symbolic model checking: for every pair of pr
                     "Gaussian backend; plus reflexivity, symmetry of the returned value and invariance of equivalence under swapping adjacent commands "
                     "on disjoint modes", design_ref="5/C18",
                     note=NOTE + "; beamsplitter parameters are numeric instances (the mod-pi reduction of a symbolic angle inside program_equivalence makes the queries mixed integer/non-linear)")
-CLAIMS["C04"] = dict(text="bounded symbolic execution with CrossHair (z3-driven path exploration of the real Python code): for every command sequence "
-                    "within the bounds (quick: <=2 commands on 3 modes, with measured-parameter dependencies and GBS circuits on 2 modes; thorough: <=3), "
+CLAIMS["C04"] = dict(text="bounded symbolic execution of the real program_utils / GBS code, two engines: (P) the shape of every command (one- or two-mode targets, "
+                    "optional measured-value dependency on any mode, predicate bit) is a symbolic choice variable and every shape a solver-checked branch "
+                    "of the path explorer: ALL sequences of 3 commands on 2 modes with predicate bits and on 3 modes without (thorough: 3 commands on 3 "
+                    "modes with bits, 4 commands on 2 modes); (X) CrossHair (z3-driven) for every command sequence "
+                    "within its bounds (quick: <=2 commands on 3 modes, with measured-parameter dependencies and GBS circuits on 2 modes; thorough: <=3): "
+                    "list_to_DAG has a path between every dependent pair and no edge against program order, "
                     "list_to_grid places every command on exactly the wires it touches or depends on in program order; DAG_to_list(list_to_DAG(seq)) "
                     "and group_operations return a permutation (by identity) of the input that keeps the order of every dependent pair, with no marked "
                     "operation in the leading or trailing part; GBS.compile either raises CircuitError or returns the Gaussian part in a dependency-"
                     "respecting order followed by one MeasureFock on exactly the measured modes in ascending order. Only 'Confirmed over all paths' "
                     "counts; each harness has a reachability twin that must be refuted", design_ref="5/C04", engine="crosshair",
-                    technique="CrossHair symbolic execution (z3) of the real program_utils / GBS code over symbolic small-integer command descriptions; verdict 'Confirmed over all paths' within stated bounds",
+                    technique="symbolic execution of the real program_utils / GBS code over symbolic command descriptions: path explorer with z3 feasibility queries (Engine P) and CrossHair (z3); verdict = every feasible path within the stated bounds satisfies the dependency oracle",
                     note="CrossHair realises symbolic integers at hash/dict boundaries (networkx), so its verdict is a solver-driven exhaustive case split rather than a single formula; bounds are small because cost grows about tenfold per command; trusted: CrossHair 0.0.110, z3, the respects()/wires() oracle in xh/c04_reorder.py")
 CLAIMS["C09"] = dict(text="bounded symbolic model checking through the real LocalEngine: for every command sequence up to the length bound over an alphabet "
                     "with daggered gates, decomposed gates (X, MZ), channels, preparations, a homodyne measurement (symbolic outcome shared between the "
@@ -95,17 +99,21 @@ CLAIMS["C09"] = dict(text="bounded symbolic model checking through the real Loca
                     "leaves the operation untouched", design_ref="5/C09")
 CLAIMS["C10"] = dict(text="bounded symbolic model checking: (1) for every expression template ops.py builds with sympy functions (sums, products, "
                     "quotients, powers, sin, cos, exp, sqrt, Abs, sign, asinh, acosh, atan, atan2, cosh, tanh; free and measured atoms; object arrays) "
-                    "the value returned by the real par_evaluate (sympy lambdify, numpy printer, called on symbolic reals) equals an independent "
-                    "recursive interpretation of the sympy tree, for all real values (principal branches included); (2) program templates with "
+                    "the value returned by the real par_evaluate (sympy lambdify, numpy printer, called on symbolic reals) equals the same template "
+                    "evaluated directly on the values by a value-level twin of par_funcs (no sympy expression in between, so a simplification under wrong "
+                    "symbol assumptions shows), for all real values (principal branches included) and, for measured parameters, all COMPLEX heterodyne "
+                    "outcomes under re / im / conjugate / Abs; (2) program templates with "
                     "FreeParameters compiled and optimised BEFORE binding act, after binding, exactly like the template built on the values, from an "
-                    "arbitrary state; (3) a measure / use / re-prepare / re-measure / use script reads the latest outcome of the right mode; use before "
+                    "arbitrary state; (3) a measure / use / re-prepare / re-measure / use script, plain and after compile(optimize=True), reads the latest outcome of the right mode; use before "
                     "measurement, unbound and unknown parameters raise ParameterError; par_regref_deps is exact", design_ref="5/C10")
 CLAIMS["C17"] = dict(text="bounded symbolic model checking of the numpy-only mesh decompositions: (1) for ARBITRARY complex matrix entries (no unitarity "
                     "assumed), on every branch (zero entry, swap, generic), the angles returned by nullT, nullTi, nullMZ, nullMZi make the targeted entry "
                     "of the product with the real T / Ti / mach_zehnder / mach_zehnder_inv exactly zero; T Ti = MZ MZ^-1 = 1, T, M, P unitary and "
                     "mach_zehnder equal to its documented matrix for all angles; (2) rectangular, rectangular_phase_end and triangular reconstruct every "
-                    "U(2) (explicit 4-angle parametrisation) with a unit-modulus diagonal; (3) a non-unitary 2x2 input is refused by all five meshes",
-                    design_ref="5/C17", note=NOTE + "; partial claim: takagi/williamson/bloch_messiah (LAPACK) and sun_compact are not encodable; end-to-end for the MZ meshes and sizes > 2 are outside (3x3 rectangular in the thorough tier)")
+                    "U(2) (explicit 4-angle parametrisation) with a unit-modulus diagonal; (3) ALL FIVE meshes reconstruct every 3x3 phased permutation (each of the 6 "
+                    "permutations with an arbitrary phase on every non-zero entry: the exact zeros drive the division-by-zero branches; thorough: 4x4, 24 "
+                    "permutations) and rectangular / triangular every 3x3 block unitary U(2)+phase; (4) a non-unitary 2x2 input is refused by all five meshes",
+                    design_ref="5/C17", note=NOTE + "; partial claim: takagi/williamson/bloch_messiah (LAPACK) and sun_compact are not encodable; end-to-end on dense unitaries for the MZ meshes and for sizes > 2 are outside (dense 3x3 rectangular in the thorough tier)")
 CLAIMS["C13"] = dict(text="bounded symbolic model checking + CrossHair: (1) for single-band loop bodies (squeezer, one or two beamsplitter loops, rotation, "
                     "homodyne on the leading mode) with N in {2,3} concurrent modes, T<=3 (4 thorough) time bins, shift 'default' and 1, symbolic "
                     "per-bin parameter arrays, the real unrolled program (TDMProgram.unroll on N modes) and an explicit loop with a fresh mode per pulse "
@@ -115,7 +123,7 @@ CLAIMS["C13"] = dict(text="bounded symbolic model checking + CrossHair: (1) for 
                     "over unroll(1|2)/space_unroll/roll leaves the expected form; (3) CrossHair: reshape_samples puts the outcome of pulse (shot, band, "
                     "bin) at that entry for symbolic N<=4, T<=4, shots<=3 (one band) and two bands of <=3", design_ref="5/C13",
                     note=NOTE + "; gate parameters are assumed non-zero in the loop harness (the p[0]==0 identity shortcut of Gate.apply is checked in C01/C02); outside: multi-band loop meaning, space_unroll state equality, T>4, crop/delay arithmetic")
-CLAIMS["C14"] = dict(text="bounded symbolic model checking with a semantic oracle: for every template (each interpretable operation family, plain and "
+CLAIMS["C14"] = dict(text="bounded symbolic model checking with a semantic oracle: for every template (each interpretable operation family, zero-valued and negative literals, post-selection on the value zero, plain and "
                     "daggered, both target orders, numeric literals, free parameters, parameter expressions, measured-parameter expressions, post-"
                     "selected homodyne/heterodyne, channels, preparations, a mixed sequence) x {Blackbird, XIR, XIR with declarations}, the real writer, "
                     "the third-party parser (native) and the real loader produce a program that -- with free parameters bound to shared symbols and "
